@@ -1277,6 +1277,12 @@ func (sc *serverConn) handleHeaderFrame(strm *Stream, fr *FrameHeader) error {
 			return NewGoAwayError(ProtocolError, "stream not open")
 		}
 
+		// Pseudo-header fields must not appear in trailers (RFC 7540 8.1.2.1).
+		// A request whose own block held nothing but pseudo-headers had not
+		// seen a regular field yet, so an :authority or :path in its trailers
+		// was taken for part of the request.
+		strm.regularSeen = true
+
 		// Like any header block the trailers may go on in CONTINUATION
 		// frames. The request is not complete until they end, so it must not
 		// be dispatched on the strength of the first block's END_HEADERS.
